@@ -1029,7 +1029,6 @@ class Filterbank(ABC):
         chan_delays = self.header.get_dmdelays(dm)
         max_delay = int(chan_delays.max())
         gulp = max(2 * max_delay, gulp)
-        # must be memset to zero in c code
         out_ar = np.empty((gulp - max_delay) * nsub, dtype="float32")
         new_foff = self.header.foff * self.header.nchans // nsub
         new_fch1 = self.header.ftop - new_foff / 2
@@ -1052,6 +1051,8 @@ class Filterbank(ABC):
             skipback=max_delay,
             **plan_kwargs,
         ):
+            # the kernel accumulates into the output buffer
+            out_ar.fill(0)
             kernels.subband(
                 data,
                 out_ar,
